@@ -6,7 +6,7 @@ SPEC = {
     'prop_files': ['theories/Properties/C07.v'],
     'coq_targets': ['theories/Properties/C07.vo', 'theories/C07/Corr.vo'],
     'closure_dirs': ['theories/C07', 'theories/Base/Word.v', 'theories/Base/FBits.v', 'theories/Base/Outcome.v',
-                     'theories/Gen/Consts.v', 'theories/Gen/Leaf.v'],
+                     'theories/Gen/Consts.v', 'theories/Gen/Leaf.v', 'theories/Gen/Leaf2.v'],
     'harness': 'c07',
     'args': {
         'quick': ['-rand', 150, '-json', 300],
@@ -22,6 +22,7 @@ SPEC = {
     'trusted_extra': [
         'modelled, not verified: per-format DecodeInt64/DecodeUint64/DecodeFloat64/DecodeFloat32, decNegintPosintFloatNumberHelper, generic narrowing (hand-written model, correspondence-checked on the full source x destination cross product)',
         'translated on every run (Gen/Leaf.v): checkOverflow.{Float32,Uint,Int,Uint2Int,SignedInt,Float32V,UintV,IntV,SignedIntV}, noFrac64, noFrac32, decNegintPosintFloatNumberHelperInt64v, parseUint64_reader',
+        'translated on every run (Gen/Leaf2.v, harness/cmd/srcgen/leaf2.go) and proved equal to the hand-written model pieces (C07_float_widen_src_tie, C07/LeafTie.v): halfFloatToFloatBits = f16_to_f32 on all 65536 inputs (loop: fuel >= 11 never runs out), bigen.Uint16/32/64 = be_val of readn',
         'json float parsing (parseFloat64/32, strconv fallback) is left to C09; here it is covered only by the direct math/big oracle',
     ],
 }
@@ -32,6 +33,6 @@ def main(chk):
 MANIFEST = {
     'category': 'proof',
     'technique': 'Coq proofs (lia over explicit wrap-arounds, bit-level float reasoning on Z) on an executable model of numeric decoding whose overflow/fraction checks are translated from the current source on every run (Gen/Leaf.v) + vm_compute correspondence on the full source-width x destination-kind cross product + direct math/big oracle on the real Decoder',
-    'text': 'Ok-implies-right theorems on the decoder model: C07_int (cbor, msgpack, binc, simple: every integer item of the format, every width, into every integer kind: stored = value, in range); C07_int_frac_msgpack_int64_partial (msgpack DecodeInt64 on all 256 descriptors: integers exact, float64 only when integral, non-numbers rejected; float32 widening not proved); C07_int_signmag / C07_uint_signmag (binc, cbor, simple sign+magnitude reconciliation through the translated Int64v/Uint2Int); C07_narrow_int / C07_narrow_uint (generic narrowing to 8/16/32/64 bits through the translated chkOvf.IntV/UintV never changes the value); C07_frac_nofrac64, C07_frac_int64, C07_frac_uint64 (the translated noFrac64 accepts exactly integral floats of magnitude < 2^52 and the conversion returns that integer); C07_float_of_int (integer items into float64: the round-to-nearest-even binary64, exactly n for |n| <= 2^53; into float32: RNE of that binary64, always finite), C07_float_narrow (float64 items into float32: NaN/Inf preserved, finite values only when |b| <= MaxFloat32 and then the finite RNE binary32), C07_float_narrow_exact + C07_float32_same (every non-NaN binary32 survives widening and narrowing bit for bit), C07_float_widen (float32 and half-float items into float64 keep exactly their real value) - all four binary formats, all bit patterns, relative to the bit-level model of the hardware conversions in Base/FBits.v (tied by correspondence). The model is tied to the code by re-translating the leaf functions on every run and by evaluating it on the full source-width x destination-kind x boundary-value cross product the harness runs through the real Decoder; the same runs are judged directly against math/big (all five formats, json included), for scalar destinations and for the same number as an element of []T, [1]T, map[string]T, a key of map[T]bool and *T (generated fast paths / builtin type switch), which must also agree with the scalar outcome; a sequence stream decodes 4-8 numbers of different wire widths one after another on ONE Decoder (top-level, []T, [k]T, struct fields; []byte, io.Reader, one-byte reader), each judged against math/big and against a fresh Decoder (the model is stateless across values, so that stream is oracle-only).',
+    'text': 'Ok-implies-right theorems on the decoder model: C07_int (cbor, msgpack, binc, simple: every integer item of the format, every width, into every integer kind: stored = value, in range); C07_int_frac_msgpack_int64_partial (msgpack DecodeInt64 on all 256 descriptors: integers exact, float64 only when integral, non-numbers rejected; float32 widening not proved); C07_int_signmag / C07_uint_signmag (binc, cbor, simple sign+magnitude reconciliation through the translated Int64v/Uint2Int); C07_narrow_int / C07_narrow_uint (generic narrowing to 8/16/32/64 bits through the translated chkOvf.IntV/UintV never changes the value); C07_frac_nofrac64, C07_frac_int64, C07_frac_uint64 (the translated noFrac64 accepts exactly integral floats of magnitude < 2^52 and the conversion returns that integer); C07_float_of_int (integer items into float64: the round-to-nearest-even binary64, exactly n for |n| <= 2^53; into float32: RNE of that binary64, always finite), C07_float_narrow (float64 items into float32: NaN/Inf preserved, finite values only when |b| <= MaxFloat32 and then the finite RNE binary32), C07_float_narrow_exact + C07_float32_same (every non-NaN binary32 survives widening and narrowing bit for bit), C07_float_widen (float32 and half-float items into float64 keep exactly their real value), C07_float_widen_src_tie (the f16_to_f32 and the big-endian be_val those statements are written with equal, on all 65536 uint16 resp. every 2/4/8-byte array, the Gallina terms srcgen re-translates from the Go source of halfFloatToFloatBits / bigen.Uint16/32/64 on every run: a behaviour-changing edit of one of them breaks this obligation) - all four binary formats, all bit patterns, relative to the bit-level model of the hardware conversions in Base/FBits.v (tied by correspondence). The model is tied to the code by re-translating the leaf functions on every run and by evaluating it on the full source-width x destination-kind x boundary-value cross product the harness runs through the real Decoder; the same runs are judged directly against math/big (all five formats, json included), for scalar destinations and for the same number as an element of []T, [1]T, map[string]T, a key of map[T]bool and *T (generated fast paths / builtin type switch), which must also agree with the scalar outcome; a sequence stream decodes 4-8 numbers of different wire widths one after another on ONE Decoder (top-level, []T, [k]T, struct fields; []byte, io.Reader, one-byte reader), each judged against math/big and against a fresh Decoder (the model is stateless across values, so that stream is oracle-only).',
     'note': 'C07_int is full for the four binary formats (per-descriptor specifications in C07/Spec.v). C07_frac is per descriptor for msgpack float64 and at the level of the shared helper (float64 value produced by decFloat) for binc/cbor/simple; for msgpack float32 items into integers only noFrac32 + truncation of the (proved exact) widening is shown. Float results are proved IEEE round-to-nearest-even / exact on the (sign, exponent, significand) decomposition of the bit-level conversion model (Base/FBits.v), which itself is tied to the hardware by correspondence; int -> float32 goes through float64 in the code, so for |n| > 2^53 the theorem gives two successive roundings (within one ulp), not the single-rounding result. json is covered by the direct oracle only (no Coq model yet; float parsing belongs to C09); parseUint64_reader is translated. cbor tag 2-5 sources (bignum/decimal fraction/bigfloat) are judged by the oracle only (not modelled); known finding F07-10: tag 4/5 into an integer destination accept values whose fraction is lost in the float64 rounding. Trusted: Coq kernel, translator harness/cmd/srcgen/leaf.go (its reading of Go fixed-width arithmetic), hand-written model, harness, Go toolchain, IEEE-754 hardware.',
 }
